@@ -257,7 +257,16 @@ impl StateMachine<'_> {
             // Like the paths taken from the ---/+++ lines: with --relative-paths the name is shown
             // (and resolved for the hyperlink) relative to the user's directory.
             utils::path::relativize_path_maybe(&mut name, self.config);
-            let line = format!("{}{}", label, format_file(&name));
+            // (a binary file whose mode changed as well: the note made for the 'Binary files' line
+            // is kept)
+            let binary_note = if self.plus_file.ends_with(" (binary file)")
+                || self.minus_file.ends_with(" (binary file)")
+            {
+                " (binary file)"
+            } else {
+                ""
+            };
+            let line = format!("{}{}{}", label, format_file(&name), binary_note);
             // This is this file's header: it must not be written once more when this function
             // is next called (a "commit" line is followed by a "diff" line, and both call it).
             self.handled_diff_header_header_line_file_pair
